@@ -157,6 +157,7 @@ def inspectGo : List Bytes → List Bytes → List Bytes → List Address → Ex
       if keys.contains key then .error .dupKey
       else
         let copy := if a.port.isEmpty then { a with port := defaultPort } else a
+        let copy := if copy.path == b!"/" then { copy with path := [] } else copy   -- "host" and "host/" are one site
         let s := copy.string
         if addrs.contains s then .error .dupAddr
         else inspectGo rest (key :: keys) (s :: addrs) (a :: acc)
